@@ -174,18 +174,22 @@ class Field:
 
 
 def frac_of_float(f):
-    return Fraction(f).limit_denominator(1 << 20)
+    return Fraction(f)   # exact: every finite double is a dyadic rational
 
 
 def rational_point(names, shadows, rng, jitter):
-    """a rational point near the shadow values (keeps the axis ordering and hence the recorded control path)"""
+    """a rational point near the shadow values; axis values are jittered by less than 1% of the smallest gap, so the
+    ordering of the axis (and hence the recorded control path) is preserved whatever the scale of the axis"""
+    xs = sorted(shadows[n] for n in names if n in shadows and n.startswith("x"))
+    gaps = [b - a for a, b in zip(xs, xs[1:]) if b > a]
+    g = Fraction(min(gaps)) if gaps else Fraction(1)
     out = {}
     for nm in names:
         base = frac_of_float(shadows.get(nm, 0.0)) if nm in shadows else Fraction(rng.randint(-40, 40), 8)
-        if jitter and not nm.startswith("x") and not nm.startswith("q"):
+        if jitter and nm.startswith("x"):
+            base += g * Fraction(rng.randint(-100, 100), 12800)
+        elif jitter and not nm.startswith("q"):
             base += Fraction(rng.randint(-1000, 1000), 997)
-        elif jitter and nm.startswith("x"):
-            base += Fraction(rng.randint(-100, 100), 3203)   # tiny: gaps are >= 0.5, ordering is preserved
         out[nm] = base
     return out
 
@@ -278,6 +282,13 @@ def spline_obligations(S, F, pid_filter=None):
         for i in range(1, n - 1):
             yield ("C02:c1[knot=%d,lane=%d]" % (i, l), [right[i - 1][1] - left[i][1]])
             yield ("C02:c2[knot=%d,lane=%d]" % (i, l), [right[i - 1][2] - left[i][2]])
+        for i in range(1, n):
+            key = "K:%d:%d" % (i, l)
+            if key in S.out:
+                b = min(i, n - 2)
+                t = T(key, "qk%d" % i, X[i])
+                ref = left[b] if b == i else right[b]
+                yield ("C02:knot-query-uses-its-own-piece[knot=%d,lane=%d]" % (i, l), [t[k] - ref[k] for k in range(5)])
         lb, rb = S.sides[l]
         # ---- left end
         if lb == "Natural":
@@ -311,8 +322,8 @@ def spline_obligations(S, F, pid_filter=None):
             yield ("C03:bc-periodic[lane=%d]" % l, [left[0][1] - right[n - 2][1], left[0][2] - right[n - 2][2]])
         # ---- range guard / extrapolation flag (C05, C06): outside queries are rejected iff extrapolation is off
         if l == 0:
-            outside_ok = [k for k in ("PL:0", "PR:0") if k in S.out]
-            outside_err = [k for k in ("PL:ERR", "PR:ERR") if k in S.out]
+            outside_ok = [k for k in ("PL:0", "PR:0", "PLE:0", "PRE:0") if k in S.out]
+            outside_err = [k for k in ("PL:ERR", "PR:ERR", "PLE:ERR", "PRE:ERR") if k in S.out]
             if S.extrap:
                 yield ("C06:never-rejects-outside[%s]" % S.bc, [F.one] if outside_err else [F.zero])
             else:
@@ -485,6 +496,17 @@ def linear_obligations(S, F):
             sup = support(S.scn, S.out["P:%d:%d" % (i, l)])
             allowed = {"x%d" % i, "x%d" % (i + 1), "y%d_%d" % (i, l), "y%d_%d" % (i + 1, l), "q%d" % i}
             yield ("C20:support[piece=%d,lane=%d]" % (i, l), [F.one] if (sup - allowed) else [F.zero])
+        for i in range(1, n):
+            key = "K:%d:%d" % (i, l)
+            if key not in S.out:
+                continue
+            b = min(i, n - 2)          # the interval that starts at knot i (the last interval for the last knot)
+            t = S.taylor(F, env, key, "qk%d" % i, X[i])
+            ref = S.taylor(F, env, "P:%d:%d" % (b, l), "q%d" % b, X[i])
+            yield ("C01:knot-query-uses-its-own-interval[knot=%d,lane=%d]" % (i, l), [t[k] - ref[k] for k in range(5)] + [t[0] - Y[i]])
+            sup = support(S.scn, S.out[key])
+            allowed = {"x%d" % b, "x%d" % (b + 1), "y%d_%d" % (b, l), "y%d_%d" % (b + 1, l), "qk%d" % i}
+            yield ("C20:support[knot=%d,lane=%d]" % (i, l), [F.one] if (sup - allowed) else [F.zero])
         if S.extrap:
             if ("PL:%d" % l) in S.out:
                 t = S.taylor(F, env, "PL:%d" % l, "qL", X[0])
@@ -494,7 +516,7 @@ def linear_obligations(S, F):
             else:
                 yield ("C06:never-rejects-outside[linear]", [F.one])
         else:
-            yield ("C05:outside-rejected-without-extrapolation[linear]", [F.one] if ("PL:%d" % l) in S.out or ("PR:%d" % l) in S.out else [F.zero])
+            yield ("C05:outside-rejected-without-extrapolation[linear]", [F.one] if any(("%s:%d" % (k, l)) in S.out for k in ("PL", "PR", "PLE", "PRE")) else [F.zero])
 
 
 def bilinear_obligations(S, F):
@@ -617,6 +639,7 @@ def decide_scenario(scn, families, mode, seed, points=3):
 
 def main():
     path, families, mode_rule, seed = sys.argv[1], sys.argv[2].split(","), sys.argv[3], int(sys.argv[4])
+    points = int(sys.argv[5]) if len(sys.argv) > 5 else 3
     out = []
     for ln in open(path):
         ln = ln.strip()
@@ -630,7 +653,7 @@ def main():
         lim = int(mode_rule.split("<=")[1]) if mode_rule.startswith("sym<=") else (99 if mode_rule == "sym" else 0)
         nvars = scn["n"] * (1 + scn["lanes"])
         mode = "sym" if (scn["n"] <= lim and scn["lanes"] <= 2) else "pit"
-        res = decide_scenario(scn, families, mode, seed)
+        res = decide_scenario(scn, families, mode, seed, points)
         out.append(dict(scenario=scn["scenario"], mode=mode, seconds=round(time.time() - t0, 2), results=res))
     json.dump(out, sys.stdout)
 
